@@ -65,7 +65,7 @@ def wrap_items(props, tier, pred=None, patterns=('same',), second=(False,)):
     out = []
     for name, r in subjects().items():
         if any(t != 'u64' for a, t in r['args']): continue
-        if r['group'] in ('key', 'gate'): continue
+        if r['group'] in ('key', 'gate', 'method2'): continue
         if pred and not pred(r): continue
         if tier == 'quick' and r['group'] == 'cfg' and r['intended']['policy'] not in ('FIFO', 'LFU', 'TLRU') and 'C19' not in props: continue
         for n in (0, 1, 2):
@@ -122,10 +122,17 @@ def conc_items(props, tier, want=None):
                  'fill|inv_with': [[('call', ('fill', 0))], [('inv_with',)]], 'fill|inv_cache': [[('call', ('fill', 0))], [('inv_cache', it['cache_name'])]],
                  'fill|new': [[('call', ('fill', 0))], [('call', ('new', 0))]], 'dup|dupdup': [[('call', ('new', 0))], [('call', ('new', 0)), ('call', ('new', 0))]]}
         if it['tags']: progs['call|inv_tag'] = [[('call', ('new', 0))], [('inv_tag', it['tags'][0])]]
+        # another function's first call (self-registration: writers of the registries) while this cache is being invalidated / queried
+        other = ('a_fifo_l2' if name != 'a_fifo_l2' else 'a_arc_l2') if S[name]['flavour'] == 'A' else ('g_fifo_l2' if name != 'g_fifo_l2' else 'g_arc_l2')
+        if name in ('g_lru_l2', 'a_lru_l2', 'g_tag1', 'a_tag1_ev1') or tier == 'thorough':
+            progs['first|inv_all_with'] = [[('call_first', other)], [('inv_all_with',)]]
+            progs['first|inv_with'] = [[('call_first', other)], [('inv_with',)]]
+            progs['first|stats_get'] = [[('call_first', other)], [('stats_get',)]]
+            if it['tags']: progs['first|inv_tag'] = [[('call_first', other)], [('inv_tag', it['tags'][0])]]
         for pname, pg in progs.items():
             if want and not want(pname, it): continue
             for nf in (1, 2):
-                if nf == 2 and pname in ('same|same', 'call|stats_get', 'call|stats_reset', 'inv_with|inv_cache', 'dup|dupdup', 'fill|inv_cache') and tier == 'quick': continue
+                if nf == 2 and (pname in ('same|same', 'call|stats_get', 'call|stats_reset', 'inv_with|inv_cache', 'dup|dupdup', 'fill|inv_cache') or pname.startswith('first|')) and tier == 'quick': continue
                 out.append(dict(kind='conc', subject=name, nfill=nf, progs=pg, preempt=2 if tier == 'quick' else 3, props=list(props)))
         if name in ('g_lru_l2', 'a_lru_l2', 'g_plain', 'a_plain') and (not want or want('tri-same', it)):
             out.append(dict(kind='conc', subject=name, nfill=1, progs=[[('call', ('new', 0))], [('call', ('new', 0))], [('call', ('new', 0))]], preempt=2, props=list(props), max_paths=20000))
@@ -138,7 +145,7 @@ def key_items(props, tier):
     from .wrap import subjects
     out = []
     for name, r in subjects().items():
-        if r['group'] in ('key', 'method', 'sig') or name in ('g_plain', 't_plain', 'a_plain', 'g_res', 'a_res', 'g_cif', 'a_inv', 't_mem1kb'):
+        if r['group'] in ('key', 'method', 'method2', 'sig') or name in ('g_plain', 't_plain', 'a_plain', 'g_res', 'a_res', 'g_cif', 'a_inv', 't_mem1kb'):
             out.append(dict(kind='keys', subject=name, maxlen=8 if tier == 'quick' else 10, props=list(props)))
     return out
 
@@ -156,6 +163,22 @@ def susp_items(props, tier):
                         if nf == 0 and inter == 'call_fill': continue
                         out.append(dict(kind='susp', subject=name, suspend_at=g, inter=inter, end=end, nfill=nf, props=list(props)))
                         if r['intended']['invalidate_on'] and nf >= 1: out.append(dict(kind='susp', subject=name, suspend_at=g, inter=inter, end=end, nfill=nf, target='fill', props=list(props)))
+    return out
+
+
+def part_items(props, tier):
+    """C14: histories of 2 fills + 4 calls over {k0, k1, n0} distributed over two threads vs. the equivalent one-thread history"""
+    import itertools
+    subs = ['g_lru_l2', 't_lru_l2', 'a_lru_l2'] + (['g_arc_l2', 'g_lfu_l2', 'g_fifo_l2', 'g_tlru_l2', 'a_arc_l2', 't_lfu_l2', 'g_plain', 't_plain'] if tier == 'thorough' else [])
+    out = []
+    for name in subs:
+        L = 5 if (tier == 'thorough' and name in ('g_lru_l2', 't_lru_l2')) else 4
+        for keys in itertools.product(('k0', 'k1', 'n0'), repeat=L):
+            if tier == 'quick' and sum(1 for k in keys if k == 'n0') > 1: continue      # at most one overflow in the quick tier
+            for tids in itertools.product((0, 1), repeat=L):
+                if not any(tids): continue
+                if tier == 'quick' and tids[0] == 1 and tids[1] == 1: continue
+                out.append(dict(kind='part', subject=name, seq=[list(x) for x in zip(tids, keys)], nfill=2, props=list(props)))
     return out
 
 
@@ -180,6 +203,11 @@ def cconc_items(props, tier):
                       ('reins|reins', [[('insert', ('pre', 0))], [('insert', ('pre', 0))]], {})]
                 if fl == 'G': P_.append(('ins|clear', [[('insert', ('new', 0))], [('clear',)]], {}))
                 if n == 1: P_.append(('insmem|get', [[('insert_with_memory', ('new', 0))], [('get', ('pre', 0))]], dict(ttl=True, mem=True)))
+                # a decision taken before the critical section (is the key present? is the cache full?) must not be acted on after
+                # another thread has removed the key and refilled the slot
+                if n == 2 and (tier == 'thorough' or pol in ('FIFO', 'LRU')):
+                    P_.append(('reins|get;ins', [[('insert', ('pre', 0))], [('get', ('pre', 0)), ('insert', ('new', 0))]], dict(ttl=True)))
+                    if fl == 'G': P_.append(('reins|clear;ins', [[('insert', ('pre', 0))], [('clear',), ('insert', ('new', 0)), ('insert', ('new', 1))]], {}))
                 for nm, pg, kw in P_:
                     if pol in ('LFU', 'Random') and nm in ('get|get',) and tier == 'quick': continue
                     out.append(dict(kind='cconc', flavour=fl, policy=pol, n=n, progs=pg, preempt=2 if tier == 'quick' else 3, props=list(props), **kw))
@@ -209,6 +237,6 @@ def items_for(prop, tier):
     if p == 'C20': return susp_items(['C20'], tier)
     if p in ('C17', 'C18'): return conc_items([p], tier) + cconc_items([p], tier)
     if p in ('C12', 'C13'): return inv_items([p], tier)
-    if p == 'C14': return wrap_items(['C14'], tier, pred=lambda r: r['group'] in ('cfg', 'plain', 'sig', 'method', 'meta', 'mem'), patterns=('same', 'other-thread'))
+    if p == 'C14': return wrap_items(['C14'], tier, pred=lambda r: r['group'] in ('cfg', 'plain', 'sig', 'method', 'meta', 'mem'), patterns=('same', 'other-thread')) + part_items(['C14'], tier)
     if p == 'C19': return wrap_items(['C19'], tier)
     return []
